@@ -12,6 +12,6 @@ SidesAll == {Sd(u, w) : u \in AllUnits, w \in {"leave", "logerr", "drop", "chain
 \* failed expectations (C07: "makes the test fail once it has finished") and the user-side flush of logged errors
 SidesUser == {Sd(u, w) : u \in AllUnits, w \in {"expect", "logflush", "flushall"}}
 SidesExpect == {Sd(u, "expect") : u \in AllUnits}
-FaultsKi == {Beh("raise", "ki", 0), Beh("dfail", "ki", 2), Beh("raise", "fail", 0), Beh("dfire", None, 2), Beh("never", None, Never)}
+FaultsKi == {Beh("raise", "ki", 0), Beh("dfail", "ki", 2), Beh("dpause", None, 2), Beh("raise", "fail", 0), Beh("dfire", None, 2), Beh("never", None, Never)}
 FaultsFew == {Beh("raise", "fail", 0), Beh("raise", "skip", 0), Beh("dfire", None, 2), Beh("dfail", "err", 2), Beh("never", None, Never)}
 =============================================================================
